@@ -110,6 +110,11 @@ func (c *aliasCtx) history(nops int) string {
 				name := genKey(r)
 				f := allFormats[r.intn(len(allFormats))]
 				typ := rawTypeSamples[r.intn(len(rawTypeSamples))]
+				if r.intn(4) == 0 {
+					// byte-slice columns: the one raw type whose contents could be shared between a row and its clone
+					f = jsonline.Binary
+					typ = []interface{}{nil, []byte{}}[r.intn(2)]
+				}
 				desc = fmt.Sprintf("#%d.With(%q, %s, %T)", t, name, gFormat(f), typ)
 				c.sink.add(typ)
 				op = fmt.Sprintf("HWith %d %s %s %s", t, gStr(name), gFormat(f), gVal(typ))
@@ -230,6 +235,10 @@ func (c *aliasCtx) history(nops int) string {
 				if keys := rowKeys(c.objs[rw].row); len(keys) > 0 && r.intn(3) != 0 {
 					k = keys[r.intn(len(keys))]
 				}
+				if cell, ok := c.objs[rw].row.GetValue(k); ok && cell != nil && cell.GetFormat() == jsonline.Binary && r.intn(3) != 0 {
+					// payloads of several lengths, shorter and longer than what the column may hold already
+					v = []string{"AAECAwQFBgcICQ==", "/////w==", "AQ==", "", "aGVsbG8gd29ybGQ=", "not base64"}[r.intn(6)]
+				}
 				desc = fmt.Sprintf("#%d.ImportAtKey(%q, %s)", rw, k, describe(v))
 				op = fmt.Sprintf("HImportAtKey %d %s %s", rw, gStr(k), gRv(v, c.sink))
 				_ = c.objs[rw].row.ImportAtKey(k, v)
@@ -296,6 +305,67 @@ func (c *aliasCtx) history(nops int) string {
 		c.rep.Samples = append(c.rep.Samples, strings.Join(hist, " ; "))
 	}
 	return fmt.Sprintf("mkhc %s\n  [%s]", tr.gallina(), strings.Join(steps, ";\n   "))
+}
+
+// byte-slice columns: a clone (CloneRow, CreateRow(row), what Export does) holds the same bytes as its source;
+// importing into the clone — a shorter payload, a longer one, a text that is not base64, through ImportAtKey,
+// ImportAtPath or UnmarshalJSON — must leave the source's bytes as they were
+func (c *aliasCtx) binaryCloneOracle() {
+	r := c.r
+	payloads := []string{"AAECAwQFBgcICQ==", "/////w==", "AQ==", "", "aGVsbG8gd29ybGQ=", "not base64", "AAAA"}
+	for _, typ := range []interface{}{nil, []byte{}} {
+		for _, f := range []jsonline.Format{jsonline.Binary, jsonline.Auto} {
+			t := jsonline.NewTemplate().With("b", f, typ).WithNumeric("n")
+			src := t.CreateRowEmpty()
+			first := payloads[r.intn(len(payloads))]
+			if f == jsonline.Auto {
+				src.Set("b", []byte("0123456789"))
+			} else if err := src.ImportAtKey("b", first); err != nil {
+				continue
+			}
+			for mode := 0; mode < 3; mode++ {
+				var clone jsonline.Row
+				switch mode {
+				case 0:
+					clone = jsonline.CloneRow(src)
+				case 1:
+					clone, _ = t.CreateRow(src)
+				default:
+					clone, _ = jsonline.NewTemplate().With("b", jsonline.Binary, typ).CreateRow(src)
+				}
+				if clone == nil {
+					continue
+				}
+				for _, next := range payloads {
+					for how := 0; how < 3; how++ {
+						before := c.snapshot(aliasObj{row: src})
+						var desc string
+						p, msg := guard(func() {
+							switch how {
+							case 0:
+								desc = fmt.Sprintf("clone.ImportAtKey(\"b\", %q)", next)
+								_ = clone.ImportAtKey("b", next)
+							case 1:
+								desc = fmt.Sprintf("clone.ImportAtPath(\"b\", %q)", next)
+								_ = clone.ImportAtPath("b", next)
+							default:
+								desc = fmt.Sprintf("clone.UnmarshalJSON({\"b\":%q})", next)
+								_ = clone.UnmarshalJSON([]byte(fmt.Sprintf(`{"b":%q}`, next)))
+							}
+						})
+						ctx := map[string]interface{}{"stream": "alias", "history": fmt.Sprintf("t = NewTemplate().With(\"b\", %s, %T); src = t.CreateRowEmpty(); src.b <- %q; clone (mode %d) ; %s", gFormat(f), typ, first, mode, desc)}
+						if p {
+							c.violate("C17", "panic: "+msg, ctx)
+						}
+						c.rep.OracleChecks["C15"]++
+						if after := c.snapshot(aliasObj{row: src}); after != before {
+							c.violate("C15", fmt.Sprintf("alias: %s changed the row it was cloned from: %s -> %s", desc, before, after), ctx)
+						}
+					}
+				}
+			}
+		}
+	}
 }
 
 // a whole Stream() over a few lines with shared templates: templates and earlier rows untouched
@@ -374,6 +444,9 @@ func aliasStream(seed uint64, tier string, outDir string, props map[string]bool,
 	flush()
 	for i := 0; i < nh; i++ {
 		c.streamOracle()
+	}
+	for i := 0; i < 1+nh/50; i++ {
+		c.binaryCloneOracle()
 	}
 	return rep
 }
